@@ -175,7 +175,7 @@ Section QuoteProofs.
     destruct (suffix_nonempty i ltac:(lia)) as [Hne Hl].
     destruct (dec_progress _ Hne (ex_intro _ _ eq_refl)) as [c [w [E [Hw Hc]]]].
     rewrite E. cbn [bind].
-    destruct (canPrintWithoutEscape c asciiOnly).
+    destruct (canPrintWithoutEscape c asciiOnly && negb (isInvalidByte c w)).
     - destruct (IH (i + w)) as [e [Ee He]]; [lia|lia|]. exists e. split; [exact Ee|lia].
     - exists i. split; [reflexivity|lia].
   Qed.
@@ -189,7 +189,7 @@ Section QuoteProofs.
     destruct (suffix_nonempty i ltac:(lia)) as [Hne Hl].
     destruct (dec_progress _ Hne (ex_intro _ _ eq_refl)) as [c [w [E [Hw Hc]]]].
     rewrite E. cbn [bind].
-    destruct (canPrintWithoutEscape c asciiOnly).
+    destruct (canPrintWithoutEscape c asciiOnly && negb (isInvalidByte c w)).
     { destruct (run_end_ok f (i + w)) as [e [Ee He]]; [lia|lia|].
       rewrite Ee. cbn [bind]. rewrite slice_ok by (fold n; lia). cbn [bind].
       apply IH; lia. }
@@ -227,27 +227,20 @@ Qed.
 
 (* the OLD decoder (width 0 on truncation) made the loop spin: for every
    amount of fuel the run on the one-byte text [0xC3] is Hang, in both modes *)
-Lemma run_end_old_hangs fuel : run_end DecodeWTF8Rune_old [195] false fuel 0 = Hang.
+(* with the old decoder the truncated byte has width 0: it counts as an invalid byte, is written
+   as \uFFFD by the default case, and i += 0 - in both escaping modes *)
+Lemma qloop_old_hangs fuel ao q : forall acc, qloop DecodeWTF8Rune_old [195] ao q fuel 0 acc = Hang.
 Proof.
-  induction fuel as [|f IH]; [reflexivity|].
-  change (run_end DecodeWTF8Rune_old [195] false (S f) 0)
-    with (run_end DecodeWTF8Rune_old [195] false f 0). exact IH.
+  induction fuel as [|f IH]; intros acc; [reflexivity|].
+  destruct ao.
+  - change (qloop DecodeWTF8Rune_old [195] true q (S f) 0 acc)
+      with (qloop DecodeWTF8Rune_old [195] true q f 0 (acc ++ [92; 117; 70; 70; 70; 68])). apply IH.
+  - change (qloop DecodeWTF8Rune_old [195] false q (S f) 0 acc)
+      with (qloop DecodeWTF8Rune_old [195] false q f 0 (acc ++ [92; 117; 70; 70; 70; 68])). apply IH.
 Qed.
 
 Lemma internalQuote_old_hangs_fast fuel q : internalQuote_fuel DecodeWTF8Rune_old [195] false q fuel = Hang.
-Proof.
-  unfold internalQuote_fuel. destruct fuel as [|f]; [reflexivity|].
-  change (qloop DecodeWTF8Rune_old [195] false q (S f) 0 [q])
-    with (e <- run_end DecodeWTF8Rune_old [195] false f 0 ;;
-          seg <- slice [195] 0 e ;;
-          qloop DecodeWTF8Rune_old [195] false q f e ([q] ++ seg)).
-  rewrite run_end_old_hangs. reflexivity.
-Qed.
+Proof. unfold internalQuote_fuel. apply qloop_old_hangs. Qed.
 
 Lemma qloop_old_hangs_ascii fuel q : forall acc, qloop DecodeWTF8Rune_old [195] true q fuel 0 acc = Hang.
-Proof.
-  induction fuel as [|f IH]; intros acc; [reflexivity|].
-  change (qloop DecodeWTF8Rune_old [195] true q (S f) 0 acc)
-    with (qloop DecodeWTF8Rune_old [195] true q f 0 (acc ++ [92; 117; 70; 70; 70; 68])).
-  apply IH.
-Qed.
+Proof. apply qloop_old_hangs. Qed.
